@@ -17,7 +17,7 @@ type H struct {
 	Tail     []rig.Step `json:"tail"`     // three more adds after recovery
 }
 
-const rule = "rapid-drawn workloads of 1-8 applies (single or bulk up to 5, optional forced raft snapshot + log compaction in between) on a single-node RaftNode over RocksDB in an executor child; for EVERY apply k and both positions {just before, just after the store write} one run SIGKILLs the child exactly there (faulty store wrapper around the real RocksDBStore), restarts it on the same directories, lets it replay its log, runs the rest of the workload and three more inserts. Oracle: after restart the node reaches exactly (acknowledged + in-flight) events (never less, never more, never a partial bulk); every later acknowledged snapshot equals the reference model's for that exact sequence (a double apply would shift versions); sampled membership proofs of all events and consistency proofs verify against the snapshots issued before the crash. evaluations = crash runs; exhaustive per workload. Non-trivial: crash point strictly inside the workload (k>=2) or crashed apply is a bulk>=2; distinct = FNV-64 of (workload, k, position)."
+const rule = "rapid-drawn workloads of 1-8 applies (single or bulk up to 5, optional forced raft snapshot + log compaction in between) on a single-node RaftNode over RocksDB in an executor child; a crash-free run counts the store writes W of the workload; then for EVERY store write k=1..W and both positions {just before, just after it} one run SIGKILLs the child exactly there (faulty store wrapper around the real RocksDBStore), restarts it on the same directories, lets it replay its log, runs the rest of the workload and three more inserts. Oracle: after restart the node reaches exactly (acknowledged + in-flight) events (never less, never more, never a partial bulk); every later acknowledged snapshot equals the reference model's for that exact sequence (a double apply would shift versions); sampled membership proofs of all events and consistency proofs verify against the snapshots issued before the crash. evaluations = crash runs; exhaustive per workload. Non-trivial: crash point strictly inside the workload (k>=2) or crashed apply is a bulk>=2; distinct = FNV-64 of (workload, k, position)."
 
 func TestCrashPoints(t *testing.T) {
 	rec := pbt.NewRec("C07", "TestCrashPoints", rule,
@@ -40,36 +40,41 @@ func TestCrashPoints(t *testing.T) {
 
 func exec(h H, rec *pbt.Rec) error {
 	wh := pbt.Hash(h)
-	k := 0
-	for i, s := range h.Workload {
-		if s.Op != "add" {
-			continue
+	// crash-free run first: it tells how many store writes (crash points) the workload has
+	writes, _, _, err := rig.CrashRun(h.Workload, nil, 0, "", 6)
+	if err != nil {
+		return err
+	}
+	if writes == 0 {
+		return &pbt.Unsettled{Why: "workload performed no store write"}
+	}
+	applies := 0
+	for _, s := range h.Workload {
+		if s.Op == "add" {
+			applies++
 		}
-		k++
+	}
+	for k := 1; k <= writes; k++ {
 		for _, pos := range []string{"before", "after"} {
-			var steps []rig.Step
-			steps = append(steps, h.Workload[:i]...)
-			steps = append(steps, rig.Step{Op: "crash", Events: s.Events, Single: s.Single, Pos: pos})
-			steps = append(steps, h.Workload[i+1:]...)
-			steps = append(steps, h.Tail...)
-			st, _, err := rig.RunNodeHistory(rig.NodeHistory{Steps: steps}, rig.Oracle{RefDigests: true, Proofs: true, Recovery: true, Limit: 8}, "nodeexec")
-			nt := k >= 2 || len(s.Events) >= 2
-			rec.CaseHash(wh^uint64(k*2+len(pos))*1099511628211, nt)
+			_, crashed, q, err := rig.CrashRun(h.Workload, h.Tail, k, pos, 8)
+			rec.CaseHash(wh^uint64(k*2+len(pos))*1099511628211, k >= 2 || len(h.Workload[0].Events) >= 2)
 			rec.Class("crash-"+pos, 1)
-			if st != nil {
-				rec.Count("proofs_verified", int64(st.Queries))
-				rec.Count("crash_points_reached", int64(st.Crashes))
+			rec.Count("proofs_verified", int64(q))
+			if crashed {
+				rec.Count("crash_points_reached", 1)
 			}
 			if err != nil {
-				if u, ok := err.(*pbt.Unsettled); ok {
-					return u
-				}
-				return fmt.Errorf("crash %s the store write of apply %d (bulk of %d): %v", pos, k, len(s.Events), err)
+				return err
+			}
+			if !crashed {
+				return &pbt.Unsettled{Why: fmt.Sprintf("crash point %s write %d of %d was not reached", pos, k, writes)}
 			}
 		}
 	}
 	rec.Exhaustive(true)
 	rec.Count("workloads", 1)
+	rec.Count("store_writes", int64(writes))
+	rec.Count("applies", int64(applies))
 	rec.Sample(len(h.Workload), h)
 	return nil
 }
